@@ -167,12 +167,15 @@ def fold(
     else:
         repr_list = value
 
-    valuestr = f'{prefix}{lbrack}{f'{sep} '.join(repr_list)}{rbrack}'
+    # NOTE the repr of a one-element tuple needs the trailing comma
+    trail = sep if reprs and isinstance(value, tuple) and len(value) == 1 else ''
+
+    valuestr = f'{prefix}{lbrack}{f'{sep} '.join(repr_list)}{trail}{rbrack}'
     if im.fitsfmt(valuestr, addlevels=addlevels):
         im.print(valuestr)
     else:
         im.print(f'{prefix}{lbrack}')
         with im.indent():
-            im.print(f'{sep}\n'.join(repr_list))
+            im.print(f'{sep}\n'.join(repr_list) + trail)
         im.print(rbrack)
     return im.printed_text().rstrip()
